@@ -175,7 +175,11 @@ func c02inProcess(ctx *Ctx) {
 					if q < 0 { // the accept carries the 5GSM cause IE in front of the PDU address
 						ch.AcceptOpt, q = 1, -q
 					}
-					ch.UEIP, ch.TEID, ch.UPFIP, ch.QosRulesLen = [][]byte{ip}, [][]byte{teid}, [][]byte{upf}, q
+					// a second UE follows on the same association with other assigned values: what was reported for the first
+					// session must still be that after the later procedures (a result that aliases a shared receive buffer
+					// changes only then)
+					ip2, teid2, upf2 := []byte{10, 60, 0, 77}, []byte{0x0a, 0x0b, 0x0c, 0x0d}, []byte{10, 200, 200, 177}
+					ch.UEIP, ch.TEID, ch.UPFIP, ch.QosRulesLen = [][]byte{ip, ip2}, [][]byte{teid, teid2}, [][]byte{upf, upf2}, q
 					a := refamf.New(acfg, ch, codec)
 					fds, err := syscall.Socketpair(syscall.AF_UNIX, syscall.SOCK_SEQPACKET, 0)
 					if err != nil {
@@ -203,13 +207,19 @@ func c02inProcess(ctx *Ctx) {
 						}
 					}()
 					conn := sctp.NewSCTPConn(fds[1], nil)
-					var gotIP, gotUPF net.IP
-					var gotTEID uint32
+					var gotIP, gotUPF, snapIP, snapUPF, gotIP2, gotUPF2 net.IP
+					var gotTEID, gotTEID2 uint32
 					perr := recoverErr(func() {
 						stgutg.ManageNGSetup(conn, emu.GnbID, emu.IMSI, emu.MNC, uint64(emu.GnbBits), emu.GnbName)
 						ue := stgutg.CreateUE(emu.IMSI, 0, emu.K, emu.OPc, emu.OP)
 						ue, _, _ = stgutg.RegisterUE(ue, emu.MNC, emu.MCC, conn)
 						gotIP, gotTEID, gotUPF = stgutg.EstablishPDU(int32(emu.SST), emu.SD, ue, conn, emu.GnbGtpIP)
+						snapIP, snapUPF = append(net.IP{}, gotIP...), append(net.IP{}, gotUPF...)
+						if item%3 == 0 { // every third case: a second UE on the same association
+							ueB := stgutg.CreateUE(emu.IMSI, 1, emu.K, emu.OPc, emu.OP)
+							ueB, _, _ = stgutg.RegisterUE(ueB, emu.MNC, emu.MCC, conn)
+							gotIP2, gotTEID2, gotUPF2 = stgutg.EstablishPDU(int32(emu.SST), emu.SD, ueB, conn, emu.GnbGtpIP)
+						}
 					})
 					syscall.Shutdown(fds[0], syscall.SHUT_RDWR) // wakes the AMF goroutine; wait for it before the descriptor number can be reused
 					<-amfDone
@@ -225,8 +235,16 @@ func c02inProcess(ctx *Ctx) {
 						continue
 					}
 					want := uint32(teid[0])<<24 | uint32(teid[1])<<16 | uint32(teid[2])<<8 | uint32(teid[3])
-					if !bytes.Equal(gotIP, ip) || gotTEID != want || !bytes.Equal(gotUPF, upf) {
-						r.Violate("establish/returned-values", cs, fmt.Sprintf("returned ip=%v teid=%#x upf=%v", gotIP, gotTEID, gotUPF), nil)
+					if !bytes.Equal(snapIP, ip) || gotTEID != want || !bytes.Equal(snapUPF, upf) {
+						r.Violate("establish/returned-values", cs, fmt.Sprintf("returned ip=%v teid=%#x upf=%v", snapIP, gotTEID, snapUPF), nil)
+					} else if !bytes.Equal(gotIP, snapIP) || !bytes.Equal(gotUPF, snapUPF) {
+						r.Violate("establish/returned-values-changed-by-later-procedures", cs, fmt.Sprintf("after the next UE's procedures the first session's values read ip=%v upf=%v (were %v %v)", gotIP, gotUPF, snapIP, snapUPF), nil)
+					}
+					if item%3 == 0 {
+						want2 := uint32(teid2[0])<<24 | uint32(teid2[1])<<16 | uint32(teid2[2])<<8 | uint32(teid2[3])
+						if !bytes.Equal(gotIP2, ip2) || gotTEID2 != want2 || !bytes.Equal(gotUPF2, upf2) {
+							r.Violate("establish/returned-values/second-UE", cs, fmt.Sprintf("returned ip=%v teid=%#x upf=%v, assigned %v %x %v", gotIP2, gotTEID2, gotUPF2, net.IP(ip2), teid2, net.IP(upf2)), nil)
+						}
 					}
 				}
 			}
